@@ -22,7 +22,17 @@ What is read (Python `ast`, nothing is executed):
 * `iterative_parser.py  scan_regex`     — whether only an *incomplete* state's match is compared with the previous match
                                           length (179bde08: an empty match is a match) — `emptyRegex`;
 * `iterative_parser.py  _consume`       — the branch `elif curr_table_idx % 8 != 0: match = False` between the bit scan and
-                                          the payload scans (a33087ac) — `aligned`.
+                                          the payload scans (a33087ac) — `aligned`;
+* `iterative_parser.py  complete` / `parse_state.py  ParseState.__init__/copy/next` — `ParseState.cut_short` (the repair
+                                          of finding C19:F68: a state advanced over a derivation that ends with the input
+                                          is never advanced again): `cut_short = state.cut_short or not state.finished()`
+                                          after the covering cut, `if s.cut_short: continue` at the head of the loop body,
+                                          `s.cut_short = cut_short` after `s = s.next()`; `self.cut_short = False` in
+                                          `__init__`, `state.cut_short = self.cut_short` in `copy()`; `next()` is
+                                          `copy()` + `_dot += 1`; the name occurs nowhere else in the parser package —
+                                          `cutShort` (a parameter of the PREFIX-mode model only, `PCfg.cutShort`:
+                                          `Gen.cutShort`; COMPLETE mode never sets the flag,
+                                          `C06_cut_short_irrelevant_in_complete_mode`).
 Each pin has exactly two accepted shapes (the repair present / absent); anything else is refused.
 
 Policy selection (a Python `set` compares hashes first, then `__eq__`):
@@ -133,16 +143,20 @@ def covering_cut() -> dict[str, Any]:
     cls = find_class(parse_file("language/grammar/parser/iterative_parser.py"), "IterativeParser")
     fn = find_func(cls, "complete")
     if "covering" not in ast.unparse(fn):
-        return {"cut": False, "prefix": False}
+        if "cut_short" in ast.unparse(fn):
+            raise Refusal("complete: `cut_short` without the covering cut")
+        return {"cut": False, "prefix": False, "cut_short_complete": (False, False, False)}
     body = [st for st in fn.body if not (isinstance(st, ast.Expr) and isinstance(st.value, ast.Constant))]
     loops = [i for i, st in enumerate(body) if isinstance(st, ast.For)]
     if len(loops) != 1:
         raise Refusal("complete: expected exactly one loop over find_dot")
     head, loop = body[:loops[0]], body[loops[0]]
-    heads = [_norm(st) for st in head]
+    heads = [_norm(st).replace("    ", "") for st in head]
     want_head = ["derivation=(state.nonterminal,state.finished())", "covering=state.covering(k)",
                  "ifderivationincovering:\nreturn"]
-    if [h.replace("\n", "\n").replace("    ", "") for h in heads] != want_head:
+    # the repair of C19:F68 adds one statement after the cut
+    cut_head = heads[3:] == [CUT_SHORT_HEAD]
+    if heads[:3] != want_head or (len(heads) > 3 and not cut_head):
         raise Refusal(f"complete: head of the covering cut has an unknown shape: {heads}")
     if _norm(loop.iter) != "table[state.position].find_dot(state.nonterminal)":
         raise Refusal("complete: loop does not run over table[state.position].find_dot(state.nonterminal)")
@@ -151,7 +165,18 @@ def covering_cut() -> dict[str, Any]:
     handed = False
     advanced_before_set = False
     seen_next = False
+    cut_skip = bool(loop.body) and _norm(loop.body[0]).replace("    ", "") == CUT_SHORT_SKIP
+    cut_set = False
+    cut_set_in_place = False
     for st in loop.body:
+        if "cut_short" in _norm(st):
+            if st is loop.body[0] and cut_skip:
+                continue
+            if _norm(st) == CUT_SHORT_SET and not cut_set:
+                cut_set = True
+                cut_set_in_place = seen_next and not handed      # between `s = s.next()` and `s.set_covering(…)`
+                continue
+            raise Refusal(f"complete: `cut_short` is used in an unknown shape: {_norm(st)}")
         if isinstance(st, ast.AnnAssign) and _norm(st.value) == "set()" or \
                 isinstance(st, ast.Assign) and _norm(st.value) == "set()":
             tgt = st.target if isinstance(st, ast.AnnAssign) else st.targets[0]
@@ -184,9 +209,65 @@ def covering_cut() -> dict[str, Any]:
     cp = find_func(ps, "copy")
     if "set_covering(self._covering_column,self._covering)" not in _norm(cp):
         raise Refusal("ParseState.copy does not carry the covering set")
+    # `table[k].add(s)` is the last statement of the loop body (the advanced, marked state is what is admitted)
+    if _norm(loop.body[-1]) != "table[k].add(s)":
+        raise Refusal("complete: the loop body does not end with table[k].add(s)")
     # the cut sits at the head of `complete`, which the INCOMPLETE end-of-input loop calls for every state with
     # children: the same test (with `finished()` False) cuts the force-completed rounds of prefix mode
-    return {"cut": True, "prefix": True}
+    return {"cut": True, "prefix": True, "cut_short_complete": (cut_head, cut_skip, cut_set and cut_set_in_place)}
+
+
+CUT_SHORT_HEAD = "cut_short=state.cut_shortornotstate.finished()"
+CUT_SHORT_SKIP = "ifs.cut_short:\ncontinue"
+CUT_SHORT_SET = "s.cut_short=cut_short"
+PARSER_PKG = "language/grammar/parser"
+
+
+def _mentions(node: ast.AST, name: str) -> int:
+    """occurrences of the identifier / attribute / keyword / string `name` below `node`"""
+    n = 0
+    for x in ast.walk(node):
+        if isinstance(x, ast.Name) and x.id == name or isinstance(x, ast.Attribute) and x.attr == name \
+                or isinstance(x, ast.keyword) and x.arg == name or isinstance(x, ast.arg) and x.arg == name \
+                or isinstance(x, ast.Constant) and x.value == name:
+            n += 1
+    return n
+
+
+def cut_short(in_complete: tuple[bool, bool, bool]) -> bool:
+    """`ParseState.cut_short` (the repair of C19:F68): present in exactly the shape the model has
+    (`Model/EarleyPrefix.lean`: `advanceP`, `stepB`), or absent altogether; `in_complete` = what `covering_cut` found
+    in `IterativeParser.complete` (head statement, skip, mark)"""
+    from harness.common import REPO_SRC
+    ps_mod = parse_file(PARSER_PKG + "/parse_state.py")
+    ps = find_class(ps_mod, "ParseState")
+    init, cp, nxt = find_func(ps, "__init__"), find_func(ps, "copy"), find_func(ps, "next")
+    if [_norm(st) for st in strip_body(nxt)] != ["next_state=self.copy()", "next_state._dot+=1", "returnnext_state"]:
+        raise Refusal("ParseState.next is not copy() + `_dot += 1`")
+    init_sets = [_norm(st) for st in ast.walk(init) if isinstance(st, (ast.Assign, ast.AnnAssign)) and "cut_short" in _norm(st)]
+    cp_body = [_norm(st) for st in strip_body(cp)]
+    cp_sets = [x for x in cp_body if "cut_short" in x]
+    in_init = init_sets == ["self.cut_short=False"] and any(_norm(st) == "self.cut_short=False" for st in init.body)
+    # `state = ParseState(…)` … `state.cut_short = self.cut_short` … `return state`
+    in_copy = cp_sets == ["state.cut_short=self.cut_short"] and cp_body[0].startswith("state=ParseState(") \
+        and cp_body[-1] == "returnstate"
+    # the name occurs nowhere else in the parser package
+    total = 0
+    for f in sorted((REPO_SRC / "fandango" / PARSER_PKG).glob("*.py")):
+        total += _mentions(parse_file(PARSER_PKG + "/" + f.name), "cut_short")
+    comp = _ip_func("complete")
+    pinned = _mentions(comp, "cut_short") + _mentions(init, "cut_short") + _mentions(cp, "cut_short")
+    parts = list(in_complete) + [in_init, in_copy]
+    if all(parts):
+        # complete: target + state.cut_short, s.cut_short (skip), s.cut_short + cut_short (mark) = 5; __init__ 1; copy 2
+        if total != pinned or pinned != 8:
+            raise Refusal(f"`cut_short` is used outside the pinned statements ({total} occurrences in the parser "
+                          f"package, {pinned} in complete / ParseState.__init__ / copy)")
+        return True
+    if not any(parts) and total == 0:
+        return False
+    raise Refusal(f"`cut_short` is only partly there: complete (head, skip, mark) = {tuple(in_complete)}, "
+                  f"ParseState.__init__ = {in_init}, copy = {in_copy}, occurrences = {total}")
 
 
 def _ip_func(name: str) -> ast.FunctionDef:
@@ -307,6 +388,7 @@ def regenerate() -> dict:
         cut = covering_cut()
         info["covering_cut"] = cut["cut"]
         info["prefix_cut"] = cut["prefix"]
+        info["cut_short"] = cut_short(cut["cut_short_complete"])
         info["max_repetitions"] = max_repetitions()
         if not mem["guarded"] or not mem["unique_is_set"]:
             raise Refusal("Column.add does not admit a state only `if state not in self.unique` (a set)")
@@ -334,7 +416,9 @@ def regenerate() -> dict:
     if lean_policy and not info["refusals"]:
         variant = {"policy": policy, "cap": None if info["open_tail"] else info["max_repetitions"],
                    "predDone": info["pred_done"], "aligned": info["aligned"], "wideGuard": info["wide_guard"],
-                   "emptyRegex": info["empty_regex"]}
+                   "emptyRegex": info["empty_regex"],
+                   # prefix mode only (`PCfg.cutShort`; the driver's op `prefix` reads it, `parse` ignores it)
+                   "cutShort": bool(info.get("cut_short"))}
     info["variant"] = variant
 
     def b(x):
@@ -367,6 +451,9 @@ def regenerate() -> dict:
         f"def alignedScan : Bool := {b(info.get('aligned'))}",
         f"def wideGuard : Bool := {b(info.get('wide_guard'))}",
         f"def emptyRegex : Bool := {b(info.get('empty_regex'))}",
+        "/-- the source has `ParseState.cut_short` (a state advanced over a derivation that ends with the input is never",
+        "    advanced again): the parameter `PCfg.cutShort` of the prefix-mode model; meaningless when `variant = none` -/",
+        f"def cutShort : Bool := {b(info.get('cut_short'))}",
         "",
         "/-- `none`: the translator refused (the source has a shape the model has no policy for) -/",
         f"def policy : Option Policy := {'some ' + lean_policy if lean_policy else 'none'}",
